@@ -86,7 +86,7 @@ def execute(case):
                 results.append(('item', u))
                 # admissible-answer oracle (exact only for unbounded queues, where the reference multiset is exact)
                 if ml is None:
-                    if not q:
+                    if not q and not (dual and (key(u), u) in (maybe_g if kind == 'bestg' else maybe_l)):
                         for v in order:
                             q.append((key(v), v))
                         if dual:
@@ -95,38 +95,48 @@ def execute(case):
                             other.clear()
                             for v in order:
                                 other.append((okey(v), v))
+                            maybe_g.clear(); maybe_l.clear()
                     if dual:
-                        while True:
-                            cur = [e for e in q if e[0] == key(e[1])]
-                            top = max(p for p, _ in q)
-                            if any(e[0] == top for e in cur):
-                                break
-                            # all entries of the top priority are stale: they are discarded
-                            for e in [e for e in q if e[0] == top]:
-                                q.remove(e)
-                            if not q:
-                                for v in order:
-                                    q.append((key(v), v))
-                                other = lqueued if kind == 'bestg' else queued
-                                okey = (lambda w: objs[w].localR) if kind == 'bestg' else (lambda w: objs[w].globalR)
-                                other.clear()
-                                for v in order:
-                                    other.append((okey(v), v))
-                        top = max(p for p, _ in q)
-                        adm = [e for e in q if e[0] == top and e[0] == key(e[1])]
-                        # stale entries of the same top priority may or may not have been discarded: remove those ahead lazily
                         mb = maybe_g if kind == 'bestg' else maybe_l
-                        if not any(e[1] == u for e in adm):
-                            # an entry that was stale at an earlier request may or may not have been discarded then (it depends on its position
-                            # among equal priorities); if the item's characteristic has meanwhile returned to the queued value it is current again
-                            if (key(u), u) in mb and key(u) >= top:
-                                mb.remove((key(u), u))
-                            else:
-                                fails.append('dual %s request returned item %d (R=%r); current entries of maximal priority %r: %r' % (kind, u, key(u), top, adm))
-                        else:
-                            q.remove(next(e for e in adm if e[1] == u))
-                            for e in [e for e in q if e[0] == top and e[0] != key(e[1])]:
+                        other = lqueued if kind == 'bestg' else queued
+                        okey = (lambda w: objs[w].localR) if kind == 'bestg' else (lambda w: objs[w].globalR)
+
+                        def refill_ref():
+                            q[:] = [(key(v), v) for v in order]
+                            other[:] = [(okey(v), v) for v in order]
+                            maybe_g.clear(); maybe_l.clear()
+                        curtop = max([e[0] for e in q if e[0] == key(e[1])], default=None)
+                        if (key(u), u) in mb and (curtop is None or key(u) >= curtop):
+                            # an entry that was stale when an earlier request passed it may or may not have been discarded then (that depends on its
+                            # position among equal priorities); its item's characteristic has meanwhile returned to the queued value, so it is current
+                            # again, and no current entry known to be queued has a higher priority: an admissible answer
+                            mb.remove((key(u), u))
+                            mb[:] = [e for e in mb if e[0] <= key(u)]
+                            for e in [e for e in q if e[0] > key(u)]:
+                                q.remove(e)
+                            for e in [e for e in q if e[0] == key(u) and e[0] != key(e[1])]:
                                 q.remove(e); mb.append(e)
+                        else:
+                            while True:
+                                cur = [e for e in q if e[0] == key(e[1])]
+                                top = max(p for p, _ in q)
+                                if any(e[0] == top for e in cur):
+                                    break
+                                # all entries of the top priority are stale: they are discarded
+                                for e in [e for e in q if e[0] == top]:
+                                    q.remove(e)
+                                if not q:
+                                    refill_ref()
+                            top = max(p for p, _ in q)
+                            adm = [e for e in q if e[0] == top and e[0] == key(e[1])]
+                            if not any(e[1] == u for e in adm):
+                                fails.append('dual %s request returned item %d (R=%r); current entries of maximal priority %r: %r' % (kind, u, key(u), top, adm))
+                            else:
+                                q.remove(next(e for e in adm if e[1] == u))
+                                mb[:] = [e for e in mb if e[0] <= top]
+                                # stale entries of the same priority may or may not have been discarded on the way
+                                for e in [e for e in q if e[0] == top and e[0] != key(e[1])]:
+                                    q.remove(e); mb.append(e)
                     else:
                         top = max(p for p, _ in q)
                         adm = [e for e in q if e[0] == top]
